@@ -156,6 +156,7 @@ class Ctx:
             with open(path, 'w') as fh:
                 fh.write(body)
         self.violations.append((clause, path))
+        self.nontrivial.add('violation:' + h)          # a violating scenario is not a trivial one
         if len(self.violations) <= 5:
             print('VIOLATION property=%s replay=%s' % (self.pid, path))
             print('  clause: %s' % clause)
@@ -193,7 +194,14 @@ class Ctx:
         try:
             import jsonschema
             with open('/root/.vp/EVIDENCE.schema.json') as fh:
-                jsonschema.validate(json.loads(dumps(ev)), json.load(fh))
+                schema = json.load(fh)
+            try:
+                jsonschema.validate(json.loads(dumps(ev)), schema)
+            except jsonschema.ValidationError as e:
+                if not self.violations:
+                    raise
+                # a run that found violations must report them even when it covered too little to describe itself
+                print('NOTE evidence record incomplete (%s); violations are reported regardless' % e.message)
         except ImportError:
             pass
         except OSError:
